@@ -8,6 +8,7 @@ package api //nolint:revive
 import (
 	"bytes"
 	"context"
+	crand "crypto/rand"
 	"crypto/sha256"
 	"encoding/base64"
 	"fmt"
@@ -19,12 +20,10 @@ import (
 	"os"
 	"path/filepath"
 	"reflect"
-	rpprof "runtime/pprof"
 	"sort"
 	"strings"
 	"sync/atomic"
 	"testing"
-	"testing/synctest"
 	"time"
 	"unsafe"
 
@@ -57,7 +56,6 @@ const (
 
 var (
 	verifC04ID  = uuid.MustParse("11111111-2222-3333-4444-555555555555")
-	verifC04T   *testing.T
 	verifC04W   *verifC04World
 	verifC04Mut atomic.Int64
 )
@@ -260,6 +258,13 @@ type verifC04World struct {
 	pb  *playback.Server
 }
 
+type verifC04Zero struct{}
+
+func (verifC04Zero) Read(p []byte) (int, error) {
+	clear(p)
+	return len(p), nil
+}
+
 // verifC04Field reads an unexported struct field.
 func verifC04Field(obj any, name string) reflect.Value {
 	v := reflect.ValueOf(obj).Elem().FieldByName(name)
@@ -323,10 +328,10 @@ func verifC04NewWorld() *verifC04World {
 	w := &verifC04World{dir: dir, servers: map[string]*verifC04Server{}}
 	w.ensureSegment()
 
-	// pprof's package-level channel is created by the first CPU profile: do that outside any synctest bubble
-	if err = rpprof.StartCPUProfile(io.Discard); err == nil {
-		rpprof.StopCPUProfile()
-	}
+	// The refusal path sleeps minPause + rand.Int(rand.Reader, maxPause-minPause) = 0–4 s
+	// (auth.LogAndDelayError).  crypto/rand.Reader is a package variable: with an all-zero source the
+	// drawn pause is 0 ns, so the real code path runs unchanged and costs nothing.
+	crand.Reader = verifC04Zero{}
 
 	recPath := filepath.Join(dir, "rec", "%path", "%Y-%m-%d_%H-%M-%S-%f")
 	yml := "api: yes\n" +
@@ -514,7 +519,7 @@ func verifC04ParseReq(f []string) (*verifC04Req, bool, string) {
 	return q, f[13] == "1", f[14]
 }
 
-func (w *verifC04World) serve(q *verifC04Req, res string) string {
+func (w *verifC04World) serve(q *verifC04Req) string {
 	s := w.servers[q.srv]
 	u := "http://mtx.test" + q.path
 	if q.query != "" {
@@ -557,12 +562,7 @@ func (w *verifC04World) serve(q *verifC04Req, res string) string {
 	w.ensureSegment()
 	before := verifC04Mut.Load()
 	rec := httptest.NewRecorder()
-	if res == "deny" {
-		// the refusal path sleeps 0–4 s (auth.LogAndDelayError): run it on synctest's fake clock
-		synctest.Test(verifC04T, func(*testing.T) { s.handler.ServeHTTP(rec, hr) })
-	} else {
-		s.handler.ServeHTTP(rec, hr)
-	}
+	s.handler.ServeHTTP(rec, hr)
 	changed := verifC04Mut.Load() != before
 	if _, err := os.Stat(w.segPath()); err != nil {
 		changed = true
@@ -613,7 +613,7 @@ func verifC04Exec(op string) string {
 		if v2 != valid || r2 != res {
 			return fmt.Sprintf("oracle-mismatch valid=%v auth=%s", v2, r2)
 		}
-		return w.serve(q, res)
+		return w.serve(q)
 	}
 	return "bad-op"
 }
@@ -783,9 +783,10 @@ func verifC04Gen(r *verifutil.Rand, i int, thorough bool) []string {
 	}
 	allMethods := []string{"GET", "POST", "PATCH", "DELETE", "PUT", "HEAD", "OPTIONS"}
 
+	// every request is its own two-op history (reset + req): the replay of a failure is minimal without shrinking
 	emit := func(q *verifC04Req) {
 		valid, res := w.oracle(q)
-		ops = append(ops, q.line(valid, res))
+		ops = append(ops, reset, q.line(valid, res))
 	}
 	for _, rt := range w.routeTable() {
 		for _, id := range ids {
@@ -864,7 +865,6 @@ func TestVerifC04(t *testing.T) {
 	if os.Getenv("VERIF_OUT") == "" {
 		t.Skip("VERIF_OUT not set")
 	}
-	verifC04T = t
 	verifC04W = verifC04NewWorld()
 	defer verifC04W.close()
 	verifutil.Main(t, &verifutil.Harness{
